@@ -57,6 +57,10 @@ func c15Cases() []c15Case {
 			add("names-"+res, false, c15Rule{Resource: res, Names: []string{"n1", "n3", "missing"}})
 			add("noselector-"+res, false, c15Rule{Resource: res})
 			add("invalid-both-"+res, true, c15Rule{Resource: res, HasSel: true, Selector: tierA, Names: []string{"n1"}})
+			// an empty selector is still a label selector (it selects everything): combining it with
+			// names is the same silent choice
+			add("invalid-emptysel-names-"+res, true, c15Rule{Resource: res, HasSel: true, Selector: map[string]interface{}{}, Names: []string{"n1"}})
+			add("invalid-expr-names-"+res, true, c15Rule{Resource: res, HasSel: true, Selector: tierIn, Names: []string{"n1"}})
 		}
 		for _, res := range []string{"secrets", "gadgets"} {
 			add("ns-own-"+res, false, c15Rule{Resource: res, Namespace: "own"})
@@ -64,6 +68,7 @@ func c15Cases() []c15Case {
 			add("ns-other-"+res, !cl, c15Rule{Resource: res, Namespace: "other"})
 			add("ns-other-names-"+res, !cl, c15Rule{Resource: res, Namespace: "other", Names: []string{"n1", "n2"}})
 			add("invalid-sel-ns-"+res, true, c15Rule{Resource: res, HasSel: true, Selector: tierA, Namespace: "own"})
+			add("invalid-emptysel-ns-"+res, true, c15Rule{Resource: res, HasSel: true, Selector: map[string]interface{}{}, Namespace: "own"})
 		}
 		add("two-rules-same-resource", false, c15Rule{Resource: "secrets", HasSel: true, Selector: tierA}, c15Rule{Resource: "secrets", Names: []string{"n3"}})
 		add("three-resources", false, c15Rule{Resource: "secrets", HasSel: true, Selector: tierA}, c15Rule{Resource: "gadgets", Names: []string{"n1"}}, c15Rule{Resource: "zones", HasSel: true, Selector: map[string]interface{}{}})
